@@ -477,6 +477,8 @@ func AnalyticToBool
   option pure
   ensures bools: hasType(v, bool) ==> result == boolval(v)
   ensures null-is-false: v == nil ==> !result
+  ensures the-word-true-in-any-letter-case-is-true-any-other-text-false: hasType(v, string) ==> result == strings.EqualFold(strval(v), "true")
+  ensures what-is-neither-a-boolean-nor-text-is-false: !hasType(v, bool) && !hasType(v, string) ==> !result
 
 func toFloat64Generic
   props C14
